@@ -152,7 +152,8 @@ def rule_workers(ctx):
                 if ba and not ab:
                     return 1
                 return (a_[0] > b_[0]) - (a_[0] < b_[0])
-            return [nm for nm, _ in sorted(sites, key=functools.cmp_to_key(cmp))]
+            # a stage called at two places (a helper holding the rest of the pipeline, used on two edges) is one stage
+            return list(dict.fromkeys(nm for nm, _ in sorted(sites, key=functools.cmp_to_key(cmp))))
         sk_w, sk_s = skeleton(wp), skeleton(sp)
         ctx.check(sk_w[:2] == sk_s[:2] == ["apply", "parse_packet"] and sorted(sk_w[2:]) == sorted(sk_s[2:]) and len(sk_w) == 4, "R4", fam + ":pipeline", "worker and sequential paths both call %s" % sk_s,
                   "worker pipeline %s differs from the sequential pipeline %s" % (sk_w, sk_s), ctx.loc(wp))
